@@ -1,77 +1,10 @@
 ----------------------------- MODULE GenericSpec -----------------------------
 (***************************************************************************)
-(* String-atom specifier algebra: dep_logic/specifiers/generic.py          *)
-(* (GenericSpecifier.__and__/__or__/__invert__/__contains__) and the       *)
-(* EmptySpecifier / AnySpecifier values its case table returns.            *)
-(*                                                                         *)
-(* Literals are sequences over a two-letter alphabet so that the relations *)
-(* the table inspects (equal, substring, superstring, overlapping,         *)
-(* disjoint, empty string) are COMPUTED here, not assumed.  Literals have  *)
-(* length <= MaxLit, candidates length <= MaxLit + 1 (a candidate longer   *)
-(* than every literal stands for "a string containing a foreign letter").  *)
-(*                                                                         *)
-(* MEANING: Sat(s, c) per PEP 508 string operators ("in" is substring      *)
-(* containment of the candidate in the literal).                           *)
-(* ALGORITHM: the sorted-operator case table, branch for branch.           *)
+(* State machine over GenericOps: every ordered pair of (operator, literal)*)
+(* specifiers; one step applies &, | or ~ with the transcribed case table. *)
+(* The operators live in GenericOps so that GroupAlgebra can reuse them.   *)
 (***************************************************************************)
-EXTENDS Naturals, Sequences, FiniteSets, TLC
-
-CONSTANT MaxLit
-Letters == {"a", "b"}
-RECURSIVE SeqsUpTo(_)
-SeqsUpTo(n) == IF n = 0 THEN {<<>>}
-               ELSE LET S == SeqsUpTo(n - 1)
-                    IN S \cup { Append(s, x) : s \in { t \in S : Len(t) = n - 1 }, x \in Letters }
-Lits  == SeqsUpTo(MaxLit)
-Cands == SeqsUpTo(MaxLit + 1)
-Ops   == {"==", "!=", "in", "not in"}
-Specs == [op : Ops, v : Lits]
-
-IsSub(x, y) == \E i \in 0..(Len(y) - Len(x)) : SubSeq(y, i + 1, i + Len(x)) = x    \* x in y
-
-\* ----------------------------------------------------------------- MEANING
-Sat(s, c) == CASE s.op = "=="     -> c = s.v
-               [] s.op = "!="     -> c # s.v
-               [] s.op = "in"     -> IsSub(c, s.v)
-               [] s.op = "not in" -> ~IsSub(c, s.v)
-DenS(s) == { c \in Cands : Sat(s, c) }
-
-\* results: [k |-> "spec", s |-> ...], "empty", "any", "ni" (NotImplementedError)
-Spec_(s) == [k |-> "spec", s |-> s]
-EmptyR   == [k |-> "empty", s |-> [op |-> "==", v |-> <<>>]]
-AnyR     == [k |-> "any",   s |-> [op |-> "==", v |-> <<>>]]
-NI       == [k |-> "ni",    s |-> [op |-> "==", v |-> <<>>]]
-DenR(r) == CASE r.k = "spec" -> DenS(r.s) [] r.k = "empty" -> {} [] r.k = "any" -> Cands [] OTHER -> {}
-
-\* --------------------------------------------------------------- ALGORITHM
-OpOrder(o) == CASE o = "==" -> 0 [] o = "!=" -> 1 [] o = "in" -> 2 [] o = "not in" -> 3
-\* sorted((self, other), key=op_order) -- stable
-This(x, y) == IF OpOrder(y.op) < OpOrder(x.op) THEN y ELSE x
-That(x, y) == IF OpOrder(y.op) < OpOrder(x.op) THEN x ELSE y
-
-GAnd(x, y) ==
-  IF x = y THEN Spec_(x)
-  ELSE LET this == This(x, y)  that == That(x, y) IN
-    IF this.op = "==" /\ that.op = "==" THEN EmptyR
-    ELSE IF this.op = "==" /\ that.op = "!=" THEN (IF this.v = that.v THEN EmptyR ELSE Spec_(this))
-    ELSE IF this.op = "in" /\ that.op = "not in" /\ this.v = that.v THEN EmptyR
-    ELSE IF this.op = "==" /\ that.op = "in" THEN (IF IsSub(this.v, that.v) THEN Spec_(this) ELSE EmptyR)
-    ELSE IF this.op = "!=" /\ that.op = "not in" /\ IsSub(this.v, that.v) THEN Spec_(that)
-    ELSE NI
-
-GOr(x, y) ==
-  IF x = y THEN Spec_(x)
-  ELSE LET this == This(x, y)  that == That(x, y) IN
-    IF this.op = "==" /\ that.op = "!=" THEN (IF this.v = that.v THEN AnyR ELSE Spec_(that))
-    ELSE IF this.op = "!=" /\ that.op = "!=" THEN AnyR
-    ELSE IF this.op = "in" /\ that.op = "not in" /\ this.v = that.v THEN AnyR
-    ELSE IF this.op = "!=" /\ that.op = "in" /\ IsSub(this.v, that.v) THEN AnyR
-    ELSE IF this.op = "!=" /\ that.op = "not in" THEN (IF IsSub(this.v, that.v) THEN Spec_(this) ELSE AnyR)
-    ELSE IF this.op = "==" /\ that.op = "in" /\ IsSub(this.v, that.v) THEN Spec_(that)
-    ELSE NI
-
-GNot(x) == Spec_([op |-> CASE x.op = "==" -> "!=" [] x.op = "!=" -> "==" [] x.op = "in" -> "not in" [] x.op = "not in" -> "in",
-                  v |-> x.v])
+EXTENDS GenericOps
 
 \* ----------------------------------------------------------- STATE MACHINE
 VARIABLES a, b, op, res, den, want
